@@ -13,6 +13,10 @@
 //!       claim is buried by the anti-reorg depth, and early enough that the upstream channel is
 //!       never closed; the payer sees PaymentFailed
 //!   D3  (diagnostic) how many blocks after the downstream expiry node 1 went on chain
+//! Two more kinds put node 1 in the place of an intercepting (LSP-style) forwarder that restarts from a
+//! ChannelManager written right after it released the intercepted HTLC and before the HTLC went out:
+//! the downstream channel is closed as stale, the HTLC lives on in its monitor, and D4 (late on-chain
+//! claim by node 2) and D5 (silent downstream) are judged as before.
 use crate::run::Sim;
 use crate::sim::{Obs, SendOpts};
 use crate::wire::Wire;
@@ -22,6 +26,7 @@ use vcore::{Report, Rng};
 #[derive(Default, Debug)]
 struct Seen {
 	forwarded_at: Option<(u32, u32)>, // (height, cltv_out)
+	forwarded_msat: u64,
 	up_fail_at: Option<u32>,
 	up_fulfil_at: Option<u32>,
 	sent: bool,
@@ -40,6 +45,7 @@ fn absorb(sim: &mut Sim, rep: &mut Report, seen: &mut Seen, c01: usize, c12: usi
 				if let Wire::Add(m) = &e.wire {
 					if m.payment_hash.0 == hash && seen.forwarded_at.is_none() {
 						seen.forwarded_at = Some((h, m.cltv_expiry));
+						seen.forwarded_msat = m.amount_msat;
 					}
 				}
 			},
@@ -111,11 +117,13 @@ pub fn phase(sim: &mut Sim, rng: &mut Rng, rep: &mut Report) -> Result<(), Strin
 		return Ok(());
 	}
 	let amt = 1_500_000 + rng.below(cap - 1_500_000);
-	let kind = rng.below(4);
+	let kind = rng.below(6);
+	let (dead_downstream, onchain_claim, stale_forwarder) = (kind == 0 || kind == 5, kind == 2 || kind == 4, kind >= 4);
 	let final_cltv = tc.min_final_cltv_expiry_delta as u32 + *rng.pick(&[0u32, 1, 5, 30]);
 	sim.w.step += 1;
 	sim.w.note(format!("DEADLINE scenario kind {} amt {} final cltv delta {}", kind, amt, final_cltv));
-	let pi = match sim.w.send_payment_ex(0, &[(vec![c01, c12], amt)], final_cltv, SendOpts { class: "deadline-forward", ..Default::default() }, None) {
+	let opts = if stale_forwarder { SendOpts { intercept: true, class: "intercepted", ..Default::default() } } else { SendOpts { class: "deadline-forward", ..Default::default() } };
+	let pi = match sim.w.send_payment_ex(0, &[(vec![c01, c12], amt)], final_cltv, opts, None) {
 		Ok(p) => p,
 		Err(_) => {
 			sim.dispatch(rep);
@@ -125,7 +133,20 @@ pub fn phase(sim: &mut Sim, rng: &mut Rng, rep: &mut Report) -> Result<(), Strin
 	let hash = sim.w.payments[pi].hash.0;
 	let mut seen = Seen::default();
 	// the HTLC gets irrevocably committed on 0-1; node 1 forwards right away except in the admission sweep
-	turn(sim, kind != 3);
+	let mut snap: Option<usize> = None;
+	if stale_forwarder {
+		// node 1 is told of the intercepted HTLC, releases it, writes its manager – and only then forwards
+		turn(sim, false);
+		sim.w.process_forwards(1);
+		sim.w.process_events(1);
+		sim.w.step += 1;
+		sim.w.note("DEADLINE node1 writes its manager between releasing the intercepted HTLC and forwarding it".to_string());
+		sim.w.snapshot(1);
+		snap = Some(sim.w.nodes[1].snapshots.len() - 1);
+		turn(sim, true);
+	} else {
+		turn(sim, kind != 3);
+	}
 	absorb(sim, rep, &mut seen, c01, c12, hash);
 	let cltv_in = sim.w.chans[c01].model.as_ref().and_then(|m| m.pending_htlcs().iter().find(|h| h.3 == hash).map(|h| h.4));
 	let cltv_in = match cltv_in {
@@ -187,14 +208,34 @@ pub fn phase(sim: &mut Sim, rng: &mut Rng, rep: &mut Report) -> Result<(), Strin
 	// the downstream side: dead from now on (kind 0), or it settles just below its own claim deadline
 	// (an honest recipient fails the HTLC back itself from that deadline on)
 	let deadline2 = sim.w.claimable.iter().find(|c| c.hash.0 == hash).and_then(|c| c.deadline).unwrap_or(cltv_out.saturating_sub(tc.htlc_fail_back_buffer));
-	let k: u32 = match kind {
-		0 => {
-			sim.w.note("DEADLINE the downstream peer goes silent for good".to_string());
+	if let Some(k) = snap {
+		// everything node 1 wrote to its monitors is durable; it comes back with the older manager
+		for n in 0..3 {
+			sim.w.complete_all(n);
+		}
+		sim.w.step += 1;
+		sim.w.note("DEADLINE node1 restarts from the manager written before the forward".to_string());
+		sim.w.chans[c12].fault = Some("forwarder restarted from a manager older than the forward".into());
+		if let Err(e) = sim.w.restart(1, Some(k), &[]) {
+			sim.raised.push(("C10".into(), "S1-reload".into(), format!("reload from persisted state failed: {}", vcore::canon(&e)), format!("node1 in a deadline scenario: {}", e)));
+			return Ok(());
+		}
+		rep.count("c08_stale_forwarder_restarts");
+		if !sim.w.is_connected(0, 1) {
+			sim.w.connect(0, 1);
+		}
+		turn(sim, true);
+		absorb(sim, rep, &mut seen, c01, c12, hash);
+	}
+	let k: u32 = if dead_downstream {
+		sim.w.note("DEADLINE the downstream peer goes silent for good".to_string());
+		if sim.w.chans[c12].fault.is_none() {
 			sim.w.chans[c12].fault = Some("downstream peer dead".into());
-			sim.w.disconnect(1, 2);
-			0
-		},
-		_ => cltv_out - deadline2 + *rng.pick(&[1u32, 1, 2, 3]),
+		}
+		sim.w.disconnect(1, 2);
+		0
+	} else {
+		cltv_out - deadline2 + *rng.pick(&[1u32, 1, 2, 3])
 	};
 	let mut settled_downstream_at: Option<u32> = None;
 	let mut onchain_claim_confirmed_at: Option<u32> = None;
@@ -202,16 +243,18 @@ pub fn phase(sim: &mut Sim, rng: &mut Rng, rep: &mut Report) -> Result<(), Strin
 	let mut claim_txids: Vec<bitcoin::Txid> = vec![];
 	while sim.w.chain.height() < end {
 		let h = sim.w.chain.height();
-		if kind != 0 && settled_downstream_at.is_none() && h + k >= cltv_out {
+		if !dead_downstream && settled_downstream_at.is_none() && h + k >= cltv_out {
 			let pos = sim.w.claimable.iter().position(|c| c.hash.0 == hash);
 			if let Some(pos) = pos {
 				sim.w.step += 1;
-				if kind == 2 {
+				if onchain_claim {
 					sim.w.note(format!("DEADLINE node2 goes on chain and claims at height {} ({} blocks before the downstream expiry {})", h, cltv_out as i64 - h as i64, cltv_out));
 					sim.w.disconnect(1, 2);
 					sim.w.claim(pos);
 					let pid = sim.w.nodes[1].id;
-					sim.w.chans[c12].fault = Some("downstream force-close".into());
+					if sim.w.chans[c12].fault.is_none() {
+						sim.w.chans[c12].fault = Some("downstream force-close".into());
+					}
 					let _ = sim.w.nodes[2].mgr.force_close_broadcasting_latest_txn(&cid12, &pid, "harness".to_string());
 					sim.w.drain_taps();
 					sim.w.pump(2);
@@ -237,11 +280,12 @@ pub fn phase(sim: &mut Sim, rng: &mut Rng, rep: &mut Report) -> Result<(), Strin
 			claim_txids.push(t.compute_txid());
 		}
 		absorb(sim, rep, &mut seen, c01, c12, hash);
-		if kind == 2 && onchain_claim_confirmed_at.is_none() {
-			// node 2's HTLC-success (a transaction of node 2 spending an output of its commitment) confirmed?
+		if onchain_claim && onchain_claim_confirmed_at.is_none() {
+			// node 2's claim (a transaction of node 2 spending an output of the commitment that closed the channel) confirmed?
+			let closing = sim.w.chans[c12].funding.as_ref().and_then(|f| sim.w.chain.spent.get(&bitcoin::OutPoint { txid: f.compute_txid(), vout: 0 })).map(|x| x.0);
 			let tip = sim.w.chain.tip().clone();
 			for t in tip.txs.iter() {
-				if claim_txids.contains(&t.compute_txid()) && t.input.iter().any(|i| claim_txids.contains(&i.previous_output.txid)) {
+				if claim_txids.contains(&t.compute_txid()) && t.input.iter().any(|i| Some(i.previous_output.txid) == closing) {
 					onchain_claim_confirmed_at = Some(tip.height);
 				}
 			}
@@ -254,13 +298,13 @@ pub fn phase(sim: &mut Sim, rng: &mut Rng, rep: &mut Report) -> Result<(), Strin
 		}
 	}
 	rep.count("c08_forward_scenarios_completed");
-	rep.count(&format!("c08_kind_{}", ["silent_downstream", "late_offchain_claim", "late_onchain_claim", "admission"][kind as usize]));
+	rep.count(&format!("c08_kind_{}", ["silent_downstream", "late_offchain_claim", "late_onchain_claim", "admission", "stale_forwarder_late_onchain_claim", "stale_forwarder_silent_downstream"][kind as usize]));
 	if let Some(hc) = seen.c12_closed_at {
 		rep.max("c08_d3_max_blocks_from_downstream_expiry_to_going_on_chain", (hc as i64 - cltv_out as i64).max(0) as u64);
 	}
 	let detail = format!("cltv_in {} cltv_out {} settled_downstream_at {:?} onchain_claim_confirmed_at {:?} seen {:?}", cltv_in, cltv_out, settled_downstream_at, onchain_claim_confirmed_at, seen);
 	match kind {
-		0 => {
+		0 | 5 => {
 			rep.count("c08_d5_dead_downstream_judged");
 			if let Some(why) = &seen.c01_closed {
 				sim.raised.push(("C08".into(), "D5-upstream-survives".into(), format!("the upstream channel was closed although only the downstream peer was dead: {}", vcore::canon(why)), detail.clone()));
@@ -275,8 +319,15 @@ pub fn phase(sim: &mut Sim, rng: &mut Rng, rep: &mut Report) -> Result<(), Strin
 					(Some(hf), Some(first_conf)) => {
 						rep.count("c08_d5_fail_back_depth_checked");
 						// the commitment is node 1's first confirmed transaction; the timeout claim cannot confirm before the
-						// downstream expiry; whichever is later must be buried
-						let earliest_timeout_conf = (*first_conf).max(cltv_out);
+						// downstream expiry; whichever is later must be buried. If the commitment that closed the channel
+						// does not carry the HTLC (node 1's own latest commitment had not received it yet when node 1 came
+						// back with an older manager), nobody can claim it once that commitment is buried.
+						let closing = sim.w.chans[c12].funding.as_ref().and_then(|f| sim.w.chain.spent.get(&bitcoin::OutPoint { txid: f.compute_txid(), vout: 0 })).map(|x| x.0);
+						let carried = closing.and_then(|t| sim.w.chain.blocks.iter().flat_map(|b| b.txs.iter()).find(|tx| tx.compute_txid() == t).map(|tx| tx.output.iter().any(|o| o.value.to_sat() == seen.forwarded_msat / 1000))).unwrap_or(true);
+						if !carried {
+							rep.count("c08_d5_closing_commitment_without_the_htlc");
+						}
+						let earliest_timeout_conf = if carried { (*first_conf).max(cltv_out) } else { *first_conf };
 						if hf + 1 < earliest_timeout_conf + tc.anti_reorg_delay {
 							sim.raised.push(("C08".into(), "D5-fail-back-after-burial".into(), "the upstream HTLC was failed back before the downstream timeout was buried by the anti-reorg depth".into(), detail.clone()));
 						}
@@ -297,7 +348,7 @@ pub fn phase(sim: &mut Sim, rng: &mut Rng, rep: &mut Report) -> Result<(), Strin
 				rep.count("c08_d4_offchain_settlements_after_close");
 			}
 		},
-		2 => {
+		2 | 4 => {
 			match onchain_claim_confirmed_at {
 				Some(hc) if hc < cltv_out => {
 					rep.count("c08_d4_onchain_settlements_judged");
